@@ -13,6 +13,7 @@ import (
 	"os/signal"
 	"runtime"
 	"strconv"
+	"strings"
 	"syscall"
 	"time"
 
@@ -78,6 +79,9 @@ func doCall(name, path, arg string) string {
 		return res(lockedfile.Transform(path, func(old []byte) ([]byte, error) {
 			if arg == "FAIL" {
 				return nil, fmt.Errorf("t failed")
+			}
+			if strings.HasPrefix(arg, "alias:") {
+				return aliasTransform(arg, old), nil
 			}
 			return unhex(arg), nil
 		}))
@@ -260,4 +264,37 @@ func mutexMisc(dir string) {
 		unlock()
 		return "ok"
 	})
+}
+
+// aliasTransform: transform functions whose result shares memory with their argument.
+//
+//	alias:same            the argument itself
+//	alias:prefix:<n>      old[:n]
+//	alias:append:<hex>    append(old, x...) — in place when the capacity allows (io.ReadAll's
+//	                      buffer usually does)
+//	alias:appendfresh:<hex>  append(old[:len(old):len(old)], x...) — never in place
+//	alias:poke:<i>:<hexbyte> old[i] = b; old   (modifies its argument in place)
+func aliasTransform(spec string, old []byte) []byte {
+	f := strings.Split(spec, ":")
+	switch f[1] {
+	case "same":
+		return old
+	case "prefix":
+		n, _ := strconv.Atoi(f[2])
+		if n > len(old) {
+			n = len(old)
+		}
+		return old[:n]
+	case "append":
+		return append(old, unhex(f[2])...)
+	case "appendfresh":
+		return append(old[:len(old):len(old)], unhex(f[2])...)
+	case "poke":
+		i, _ := strconv.Atoi(f[2])
+		if b := unhex(f[3]); i < len(old) && len(b) == 1 {
+			old[i] = b[0]
+		}
+		return old
+	}
+	return old
 }
